@@ -235,31 +235,20 @@ def r3(ctx):
     if not bad:
         ctx.ok("C08.R3", "the declared level order is not re-sorted", f.where)
     from ..expect import contains, contains_any
-    ok, why = contains_any(P, f, ["""
+    LV = """
         def encode_contrasts(data, contrasts=None, *, levels=None, reduced_rank=False, output=None, _state=None, _spec=None):
             if levels is not None:
-                data = pandas.Series(pandas.Categorical(data, categories=levels))
-            else:
-                ...
-            ...
-    """, """
-        def encode_contrasts(data, contrasts=None, *, levels=None, reduced_rank=False, output=None, _state=None, _spec=None):
-            if levels is not None:
-                data = pandas.Series(pandas.Categorical(data, levels))
-            else:
-                ...
-            ...
-    """])
-    ctx.check(ok, "C08.R3", "explicit / recorded levels are passed through as given", f.where, ctx.construct(f, text="Categorical(categories=levels)"),
-              f"expected pandas.Categorical(data, categories=levels): {why}")
-    ok, why = contains(P, f, """
-        def encode_contrasts(data, contrasts=None, *, levels=None, reduced_rank=False, output=None, _state=None, _spec=None):
-            if levels is not None:
-                ...
+                extra_categories = set(pandas.unique(data)).difference(levels)
+                if extra_categories:
+                    warnings.warn(f"{extra_categories}", DataMismatchWarning)
+                data = pandas.Series(pandas.Categorical(data, %s))
             else:
                 data = pandas.Series(data).astype("category")
             ...
-    """)
+    """
+    ok, why = contains_any(P, f, [LV % "categories=levels", LV % "levels"])
+    ctx.check(ok, "C08.R3", "explicit / recorded levels are passed through as given", f.where, ctx.construct(f, text="Categorical(categories=levels)"),
+              f"expected pandas.Categorical(data, categories=levels): {why}")
     ctx.check(ok, "C08.R3", "levels are discovered by the categorical dtype conversion (sorted for text, declared order for category dtype)", f.where,
               ctx.construct(f, text="astype(category)"), f"expected pandas.Series(data).astype('category') when no levels are given: {why}")
     ok, why = contains(P, f, """
@@ -268,37 +257,16 @@ def r3(ctx):
                 categories = list(data.cat.categories)
                 encoded = pandas.get_dummies(data)
             elif output == "sparse":
-                ...
+                categories, encoded = categorical_encode_series_to_sparse_csc_matrix(data)
             else:
                 raise ValueError("")
             _state["categories"] = categories
             ...
+            return contrasts.apply(encoded, levels=categories, reduced_rank=reduced_rank, output=output)
     """)
     ctx.check(ok, "C08.R3", "dummy columns and reported categories both come from the categorical's own category list", f.where,
               ctx.construct(f, text="categories/get_dummies"), f"categories must be list(data.cat.categories) and dummies pandas.get_dummies(data): {why}")
-    ok, why = contains(P, f, """
-        def encode_contrasts(data, contrasts=None, *, levels=None, reduced_rank=False, output=None, _state=None, _spec=None):
-            if output in ("narwhals", "pandas", "numpy"):
-                ...
-            elif output == "sparse":
-                categories, encoded = categorical_encode_series_to_sparse_csc_matrix(data)
-            else:
-                raise ValueError("")
-            _state["categories"] = categories
-            ...
-    """)
     ctx.check(ok, "C08.R3", "the sparse path encodes the same categorical", f.where, ctx.construct(f, text="sparse dummy"), f"sparse dummy encoding call changed: {why}")
-    ok, why = contains(P, f, """
-        def encode_contrasts(data, contrasts=None, *, levels=None, reduced_rank=False, output=None, _state=None, _spec=None):
-            if output in ("narwhals", "pandas", "numpy"):
-                categories = list(data.cat.categories)
-                encoded = pandas.get_dummies(data)
-            elif output == "sparse":
-                categories, encoded = categorical_encode_series_to_sparse_csc_matrix(data)
-            else:
-                raise ValueError("")
-            return contrasts.apply(encoded, levels=categories, reduced_rank=reduced_rank, output=output)
-    """)
     ctx.check(ok, "C08.R3", "contrasts are applied with the same category order", f.where, ctx.construct(f, text="apply(levels=categories)"),
               f"contrasts.apply must receive levels=categories: {why}")
     sp = P.func("formulaic.utils.sparse.categorical_encode_series_to_sparse_csc_matrix")
